@@ -112,14 +112,7 @@ def one(ctx, rng):
                             r2[:3] if r2[0] != "ok" else "ok", kinds), replay)
         return
     a, b = D.result_arrays(r[1]), D.result_arrays(r2[1])
-    # mutation rows may be renumbered when sites are added: compare mutations by (position, node) order
-    def key_order(o):
-        pos = o.sites_position[o.mutations_site]
-        return np.lexsort((np.arange(o.num_mutations), pos))
-    oa, ob = key_order(r[1]), key_order(r2[1])
-    for k in ("mut_time", "mut_mn", "mut_vr", "mut_node"):
-        a[k] = a[k][oa]
-        b[k] = b[k][ob]
+    # (mutation rows are compared in the canonical (position, node, time) order of result_arrays)
     d, key = D.max_rel_diff(a, b)
     ctx.case(dict(desc, max_rel_diff=d), nontrivial=len(kinds) >= 2, kind="ok/" + method)
     if d > 0.0:
